@@ -1628,7 +1628,10 @@ class ForAll(BinaryOperator):
     @property
     @lru_cache(maxsize=None)
     def condition_unique_variable_ids(self) -> List[int]:
-        return [v._id_ for v in self.free_variables]
+        # (an element flattened out of a free variable's collection is bound by the condition like a variable is.)
+        universal = {node._id_ for node in self.left._all_nodes_}
+        return [v._id_ for v in self.free_variables] + [node._id_ for node in self.condition._all_nodes_
+                                                        if isinstance(node, Flatten) and node._id_ not in universal]
 
     def _evaluate__(self, sources: Optional[Dict[int, HashedValue]] = None,
                     yield_when_false: bool = False) -> Iterable[Dict[int, HashedValue]]:
